@@ -18,4 +18,5 @@ Extraction "model.ml"
               plain_is_empty plain_count map_equals within_tolerance
   (* wire *) xk_enc xk_dec_into ds_of_sketch ds_fresh sketch_of_ds enc_mapping dec_mapping
   (* mappings *) with_gamma with_accuracy gm_index gm_lower gm_value gm_accuracy
+  (* paginated loops *) xp_min_go xp_max_go xp_key_at_rank_go
   (* dataset *) d_new d_add d_merge xd_lower xd_upper xd_min xd_max d_sum_exact.
